@@ -334,6 +334,7 @@ def build(tier="quick", seed=0):
     limit_21_2(b)
     cpl_ctl(b)
     quick_tides_rheology_site(b)
+    quick_tides_pipeline(b)
     nonneg_ranges(b, tier)
     b.assume("sign / abs of a tidal mode are uninterpreted with abs(x) = sign(x) x, sign(0) = abs(0) = 0, abs(-x) = abs(x)")
     b.assume("-Im k_l enters as an uninterpreted function of (l, complex compliance); the compliance as an uninterpreted function of the frequency value (what compliance_dict_helper computes per unique frequency)")
@@ -585,10 +586,23 @@ def quick_tides_rheology_site(b):
         b.subset_exits.append(str(e))
         return
     b.add_fn(qt)
-    sts = find_stmts(qt.node, lambda s: isinstance(s, ast.If) and "rheology.lower()" in ast.unparse(s.test) and "cpl" in ast.unparse(s.test))
-    if len(sts) != 1:
-        b.subset_exits.append(f"{qt.key}: rheology selection statement not found ({len(sts)} candidates)")
+    # the selection statement: the top-level `if` that hands out the CPL helper; plus the simple assignments before it that its tests read (e.g. a lower-cased name)
+    body = list(qt.node.body)
+    sel = [s for s in body if isinstance(s, ast.If) and "cpl_neg_imk_helper_func" in ast.unparse(s)]
+    if len(sel) != 1:
+        b.subset_exits.append(f"{qt.key}: rheology selection statement not found ({len(sel)} candidates)")
         return
+    tests, node_ = [], sel[0]
+    while isinstance(node_, ast.If):
+        tests.append(node_.test)
+        node_ = node_.orelse[0] if len(node_.orelse) == 1 else None
+    need = {n_.id for t_ in tests for n_ in ast.walk(t_) if isinstance(n_, ast.Name)} - set(qt.params)
+    sts = []
+    for s_ in reversed(body[:body.index(sel[0])]):
+        if isinstance(s_, ast.Assign) and len(s_.targets) == 1 and isinstance(s_.targets[0], ast.Name) and s_.targets[0].id in need:
+            sts.insert(0, s_)
+            need |= {n_.id for n_ in ast.walk(s_.value) if isinstance(n_, ast.Name)} - set(qt.params)
+    sts.append(sel[0])
     k2, Q, n, spin, dtu = R("fixed_k2"), R("fixed_q"), R("orbital_frequency"), R("spin_frequency"), R("fixed_dt_user")
     pre = [sp.Gt(k2, 0), sp.Gt(Q, 0), sp.Gt(n, 0), sp.Ne(spin, 0), sp.Gt(dtu, 0)]
     genv = dict(cpl_neg_imk_helper_func=("fn", "cpl_neg_imk_helper_func"), ctl_neg_imk_helper_func=("fn", "ctl_neg_imk_helper_func"), linear_dt=("fn", "linear_dt"))
@@ -615,6 +629,143 @@ def quick_tides_rheology_site(b):
                 ok = ok_shape and len(fi) == 2 and p.env.get("rheo_func") == ("fn", "cpl_neg_imk_helper_func") and sp.simplify(fi[0] - k2) == 0 and sp.simplify(fi[1] - Q) == 0
                 ground(b, f"{qt.key}::cpl_site[{tag}]@path{i}", qt.key, "CPL: rheo_func is the CPL helper and fixed_inputs == (fixed_k2, fixed_q)", ok, detail=str(fi)[:200])
     b.replayer(f"{qt.key}::ctl_site_*", replay_ctl_site)
+
+
+def quick_tides_pipeline(b):
+    """argument binding of quick_tidal_dissipation (modular: every callee by a recording stub with its precondition): the block from the rheology
+    selection to the result dictionary is executed from the real source for a CPL, a CTL and a Maxwell call.  What the statement's heating /
+    potential-derivative identity needs from this caller: the mode calculator gets (spin, n, a, R, G-table(e), F-table(I)) and SIGNED modes
+    (multiply_modes_by_sign true: dU/dM, dU/dw, dU/dO carry sign(omega) while the heating uses |omega|); the collapse gets the planet's own
+    (g, R, rho, mu, scale, M_host), the susceptibility of (M_host, R, a), the compliances of the calculator's unique frequencies and the calculator's
+    terms, with the same l_max and CPL flag; the dictionary stores the collapse's outputs under their names and torque = M_host dU/dO."""
+    import ast
+    FQ = "TidalPy/toolbox/quick_tides.py"
+    try:
+        qt = Fn(FQ, "quick_tidal_dissipation")
+    except ExtractError as e:
+        b.subset_exits.append(str(e))
+        return
+    b.add_fn(qt)
+    body = list(qt.node.body)
+    first = [i for i, s_ in enumerate(body) if isinstance(s_, ast.Assign) and any(isinstance(t_, ast.Name) and t_.id == "use_cpl_ctl" for t_ in s_.targets)]
+    last = [i for i, s_ in enumerate(body) if isinstance(s_, ast.If) and "calculate_orbit_spin_derivatives" in ast.unparse(s_.test)]
+    if len(first) < 1 or len(last) != 1 or first[0] >= last[0]:
+        b.subset_exits.append(f"{qt.key}: anchors of the calculation block not found ({first}, {last})")
+        return
+    sts = body[first[0]:last[0]]
+    names = ("host_mass", "target_radius", "target_mass", "target_gravity", "target_density", "target_moi", "tidal_scale", "spin_frequency", "orbital_frequency",
+             "semi_major_axis", "eccentricity", "obliquity", "fixed_k2", "fixed_q", "viscosity", "shear_modulus")
+    V = {k_: R("qt_" + k_) for k_ in names}
+    pre = [sp.Gt(V[k_], 0) for k_ in names if k_ not in ("spin_frequency", "obliquity")] + [sp.Lt(V["eccentricity"], 1)]
+    for rh in ("cpl", "ctl", "maxwell"):
+        rec = {}
+
+        def stub(name, result):
+            def f(ex, node, *a, **k):
+                rec.setdefault(name, []).append((a, k))
+                return result(*a, **k) if callable(result) else result
+            return f
+        CALC, COLL, ECCF, INCF = (stub("calc", (("UNIQ",), ("TERMS",))), stub("collapse", tuple(R(f"qt_out{i}") for i in range(7))),
+                                  stub("ecc", ("ECC",)), stub("inc", ("INC",)))
+        genv = dict(cpl_neg_imk_helper_func=stub("rheo", ("COMPL",)), ctl_neg_imk_helper_func=stub("rheo", ("COMPL",)), linear_dt=("fn", "linear_dt"),
+                    known_compliance_models={"maxwell": ("fn", "maxwell")}, compliance_dict_helper=stub("helper", ("COMPL",)),
+                    find_mode_manipulators=stub("find", (CALC, COLL, ECCF, INCF)), calc_tidal_susceptibility=stub("chi", R("qt_chi")),
+                    MissingArgumentError="MissingArgumentError")
+        env = dict(V, rheology=rh, fixed_dt=None, precalculated_mode_results=None, max_tidal_order_l=sp.Integer(3), eccentricity_truncation_lvl=sp.Integer(6),
+                   use_obliquity=True, complex_compliance_inputs=None, use_array=False)
+        fr, ex, paths = run_fragment(b, qt, sts, f"pipeline[{rh}]", env, pre, globals_env=genv, contracts={}, opts=dict(auto_inline_same_module=False))
+        if not paths:
+            continue
+        rets = [p for p in paths if p.outcome == "return"]
+        key = f"{qt.key}::pipeline[{rh}]"
+        if len(paths) != 1 or len(rets) != 1:
+            b.subset_exits.append(f"{key}: {len(paths)} paths ({[p.outcome for p in paths]}) over one recording store")
+            continue
+        p = rets[0]
+
+        def same(x, y):
+            try:
+                return x is y or x == y or sp.simplify(sp.sympify(x) - sp.sympify(y)) == 0
+            except Exception:
+                return False
+
+        def one(name):
+            c_ = rec.get(name, [])
+            return c_[0] if len(c_) == 1 else None
+        # find_mode_manipulators
+        c_ = one("find")
+        ok = c_ is not None and same(dict(zip(("max_order_l", "eccentricity_truncation_lvl", "use_obliquity"), c_[0]), **c_[1]).get("max_order_l"), 3) and \
+            same(dict(zip(("max_order_l", "eccentricity_truncation_lvl", "use_obliquity"), c_[0]), **c_[1]).get("eccentricity_truncation_lvl"), 6) and \
+            dict(zip(("max_order_l", "eccentricity_truncation_lvl", "use_obliquity"), c_[0]), **c_[1]).get("use_obliquity") is True
+        ground(b, f"{key}::mode_functions", qt.key, "find_mode_manipulators is asked for the caller's l_max, truncation level and obliquity switch", ok, detail=str(c_)[:200])
+        c_ = one("chi")
+        ground(b, f"{key}::susceptibility", qt.key, "tidal susceptibility is that of (host mass, target radius, semi-major axis)",
+               c_ is not None and len(c_[0]) == 3 and all(same(x_, V[k_]) for x_, k_ in zip(c_[0], ("host_mass", "target_radius", "semi_major_axis"))), detail=str(c_)[:200])
+        e_, i_ = one("ecc"), one("inc")
+        ground(b, f"{key}::tables", qt.key, "eccentricity functions are evaluated at the eccentricity and inclination functions at the obliquity",
+               e_ is not None and i_ is not None and len(e_[0]) == 1 and len(i_[0]) == 1 and same(e_[0][0], V["eccentricity"]) and same(i_[0][0], V["obliquity"]), detail=f"{e_} {i_}"[:200])
+        c_ = one("calc")
+        okc = c_ is not None
+        if okc:
+            bound = dict(zip(("spin_frequency", "orbital_frequency", "semi_major_axis", "radius", "eccentricity_results_byorderl", "obliquity_results_byorderl", "multiply_modes_by_sign"), c_[0]), **c_[1])
+            okc = all(same(bound.get(a_), V[k_]) for a_, k_ in (("spin_frequency", "spin_frequency"), ("orbital_frequency", "orbital_frequency"), ("semi_major_axis", "semi_major_axis"), ("radius", "target_radius"))) \
+                and bound.get("eccentricity_results_byorderl") == ("ECC",) and bound.get("obliquity_results_byorderl") == ("INC",)
+            sign = bound.get("multiply_modes_by_sign", True)
+            ground(b, f"{key}::signed_modes", qt.key, "precondition of the heating / derivative identity at the mode calculator's call site: multiply_modes_by_sign is true (for every rheology, CPL / CTL included)",
+                   sign is True or sign == sp.true, detail=f"multiply_modes_by_sign = {sign!r}", refuted_model=None if (sign is True or sign == sp.true) else dict(rheology=rh, multiply_modes_by_sign=str(sign)))
+        ground(b, f"{key}::calculator_arguments", qt.key, "the mode calculator gets (spin, n, a, R, G-table(e), F-table(I))", okc, detail=str(c_)[:300])
+        # compliances at the calculator's unique frequencies
+        c_ = one("rheo") if rh in ("cpl", "ctl") else one("helper")
+        okr = c_ is not None and len(c_[0]) >= 1 and c_[0][0] == ("UNIQ",)
+        if okr and rh == "maxwell":
+            okr = len(c_[0]) == 4 and c_[0][1] == ("fn", "maxwell") and isinstance(c_[0][2], tuple) and len(c_[0][2]) == 2 and same(c_[0][2][0], 1 / V["shear_modulus"]) and same(c_[0][2][1], V["viscosity"])
+        ground(b, f"{key}::compliances", qt.key, "compliances (or the CPL / CTL -Im k) are computed at the calculator's unique frequencies" + (" from (1/mu, eta) with the selected model" if rh == "maxwell" else ""), okr, detail=str(c_)[:300])
+        c_ = one("collapse")
+        okk = c_ is not None
+        if okk:
+            pn = ("gravity", "radius", "density", "shear_modulus", "tidal_scale", "tidal_host_mass", "tidal_susceptibility", "complex_compliance_by_frequency", "tidal_terms_by_frequency", "max_order_l", "cpl_ctl_method")
+            bound = dict(zip(pn, c_[0]), **c_[1])
+            okk = all(same(bound.get(a_), V[k_]) for a_, k_ in (("gravity", "target_gravity"), ("radius", "target_radius"), ("density", "target_density"), ("tidal_scale", "tidal_scale"), ("tidal_host_mass", "host_mass"))) \
+                and same(bound.get("tidal_susceptibility"), R("qt_chi")) and bound.get("complex_compliance_by_frequency") == ("COMPL",) and bound.get("tidal_terms_by_frequency") == ("TERMS",) \
+                and same(bound.get("max_order_l"), 3) and (bound.get("cpl_ctl_method") is (rh != "maxwell")) \
+                and (same(bound.get("shear_modulus"), V["shear_modulus"]) if rh == "maxwell" else same(bound.get("shear_modulus"), 1))
+        ground(b, f"{key}::collapse_arguments", qt.key, "the collapse gets the planet's (g, R, rho, mu, scale, M_host), that susceptibility, those compliances and the calculator's terms, the same l_max and the CPL flag", okk, detail=str(c_)[:400])
+        d = p.env.get("dissipation_results")
+        outs = [R(f"qt_out{i}") for i in range(7)]
+        okd = isinstance(d, dict) and all(k_ in d for k_ in ("tidal_heating", "dUdM", "dUdw", "dUdO", "tidal_torque")) and same(d["tidal_heating"], outs[0]) and same(d["dUdM"], outs[1]) \
+            and same(d["dUdw"], outs[2]) and same(d["dUdO"], outs[3]) and same(d["tidal_torque"], V["host_mass"] * outs[3])
+        ground(b, f"{key}::results", qt.key, "the result dictionary stores the collapse's heating, dU/dM, dU/dw, dU/dO under those names and torque = M_host dU/dO", okd, detail=str(d)[:300] if not okd else "")
+    b.replayer(f"{qt.key}::pipeline*", replay_pipeline)
+
+
+_PIPE_CODE = r'''
+import numpy as np
+from TidalPy.toolbox.quick_tides import quick_tidal_dissipation
+M_HOST, RADIUS, MASS, GRAVITY, DENSITY = 1.9e27, 1.8e6, 8.9e22, 1.8, 3500.
+MOI = 0.4 * MASS * RADIUS**2
+N = 2. * np.pi / (1.77 * 86400.)
+out = {}
+for rh, kw in (("cpl", dict(fixed_k2=0.3, fixed_q=100.)), ("ctl", dict(fixed_k2=0.3, fixed_q=100.)), ("maxwell", dict(viscosity=1e16, shear_modulus=5e10))):
+    worst = 0.0
+    for ratio, e in ((2.5, 0.0), (1.0, 0.05), (-1.5, 0.1), (0.5, 0.2)):
+        r = quick_tidal_dissipation(M_HOST, RADIUS, MASS, GRAVITY, DENSITY, MOI, rheology=rh, eccentricity=e, obliquity=0.2, orbital_frequency=N, spin_frequency=N * ratio,
+                                    max_tidal_order_l=2, eccentricity_truncation_lvl=4, use_obliquity=True, **kw)
+        h = float(r['tidal_heating']); rhs = M_HOST * (N * float(r['dUdM']) - N * ratio * float(r['dUdO']))
+        worst = max(worst, abs(h - rhs) / max(abs(h), 1e-300))
+    out[rh] = worst
+result = out
+'''
+
+
+def replay_pipeline(ob, res):
+    from tpv import native
+    r = native.run(dict(code=_PIPE_CODE), timeout=900)
+    rec = dict(replayed=True, native=r, what="heating vs M_host (n dU/dM - Omega dU/dOmega) through quick_tidal_dissipation for cpl / ctl / maxwell at four spin states")
+    try:
+        rec["confirmed"] = bool(max(r["result"].values()) > 1e-8)
+    except Exception:
+        rec["confirmed"] = "exception" in r
+    return rec
 
 
 _CTL_CODE = r'''
